@@ -43,6 +43,7 @@ func s1Size(maxGroups int) int {
 
 // s1Policy decodes index i (0 <= i < s1Size(maxGroups)) into a policy; simplest first.
 func s1Policy(names []string, i int) *seccomp.Policy {
+	orig := i
 	ng, pw := 1, 32
 	for i >= 3*pw {
 		i -= 3 * pw
@@ -62,6 +63,15 @@ func s1Policy(names []string, i int) *seccomp.Policy {
 			if sub&(1<<b) != 0 {
 				grp.Names = append(grp.Names, names[b])
 			}
+		}
+		// variation that must not matter: descending order of the names; nil instead of an empty slice
+		if (orig/5)%2 == 1 {
+			for l, r := 0, len(grp.Names)-1; l < r; l, r = l+1, r-1 {
+				grp.Names[l], grp.Names[r] = grp.Names[r], grp.Names[l]
+			}
+		}
+		if len(grp.Names) == 0 && (orig/3)%2 == 1 {
+			grp.Names = nil
 		}
 		p.Syscalls = append(p.Syscalls, grp)
 	}
@@ -149,6 +159,32 @@ func runS1Table(r *compileRun, tier string) {
 			}
 			p := &seccomp.Policy{DefaultAction: def, Syscalls: []seccomp.SyscallGroup{{Action: act, Names: names[:k:k]}}}
 			r.one("S1table-k/"+a.Name, a, p, engine.Options{ExtraNr: extra})
+		})
+		// the first k names in descending and in interleaved order (the order inside a group must not matter)
+		stepD := 2
+		if tier == "quick" {
+			stepD = 7
+		}
+		parallelFor((T+stepD)/stepD, func(ci int) {
+			k := ci * stepD
+			if k > T {
+				k = T
+			}
+			desc := make([]string, k)
+			for i := 0; i < k; i++ {
+				if ci%2 == 0 {
+					desc[i] = names[k-1-i]
+				} else {
+					// interleave from both ends
+					if i%2 == 0 {
+						desc[i] = names[i/2]
+					} else {
+						desc[i] = names[k-1-i/2]
+					}
+				}
+			}
+			p := &seccomp.Policy{DefaultAction: allNamed[(k+2)%7], Syscalls: []seccomp.SyscallGroup{{Action: allNamed[(k+4)%7], Names: desc}}}
+			r.one("S1table-unsorted/"+a.Name, a, p, engine.Options{ExtraNr: extra})
 		})
 		// two groups split at every cut point
 		step := 1
